@@ -48,6 +48,10 @@ def containers(atoms, depth=1):
     out.append(("{x:1,y:'a'}", {"x": a[1], "y": b[1]}))
     out.append(("{y:'a',x:1}", {"y": b[1], "x": a[1]}))
     out.append(("{é:1,'total cost':2,total:3}", {"é": 1, "total cost": 2, "total": 3, 'a"b': 4, "a#b": 5, "z": 6}))
+    # user dictionaries whose keys look like the wire encoding of a typed value
+    out.append(("{type:number,value:42}", {"type": "number", "value": 42}))
+    out.append(("{type:csv,value:[1]}", {"type": "csv", "value": [1]}))
+    out.append(("[{type:null,value:0}]", [{"type": "null", "value": 0}]))
     if depth >= 2:
         for n, v in list(out):
             out.append(("[%s]" % n, [v]))
